@@ -170,6 +170,8 @@ def rust_type(te):
 
 def needs_bytes_attr(te):
     te = peel(te)
+    if te["k"] == "lt":
+        te = peel(te["t"])
     return te["k"] in ("bytes", "bytearr") or (te["k"] == "opt" and peel(te["t"])["k"] in ("bytes", "bytearr"))
 
 
@@ -440,6 +442,10 @@ def hand_families():
          struct_("Top", [("x", ref("G", P("i32"), P("string"))), ("y", ref("G", P("string"), P("i32"))), ("z", ref("G", ref("L"), opt(ref("L"))))])],
         ref("Top"), note="two-parameter generic, swapped instantiations")
     add([struct_("G", [("a", {"k": "param", "i": 0})], gparams=1)], ref("G", ref("G", P("i32"))), note="generic instantiated at itself, generic root")
+    dur = {"k": "lt", "lt": "duration", "t": {"k": "bytearr", "n": 12}}
+    add([struct_("Lease", [("holder", {"k": "param", "i": 0}), ("term", dur)], gparams=1),
+         struct_("Top", [("a", ref("Lease", P("i32"))), ("b", ref("Lease", P("string"))), ("c", ref("Lease", P("i32"))), ("plain", dur)])], ref("Top"),
+        note="generic record owning a named logical-type node (duration over a 12-byte fixed), instantiated at two types")
     add([struct_("Lt", [("u", lt("uuid")), ("d", lt("date")), ("tm", lt("time-millis")), ("tu", lt("time-micros")), ("sm", lt("timestamp-millis")),
                         ("su", lt("timestamp-micros"))])], ref("Lt"), note="logical-type attributes")
     add([struct_("A", [("x", P("i32"))], ns="my.ns"), struct_("B", [("a", ref("A")), ("y", P("i32"))], ns=""), unit_enum("E", ["X", "Y"], ns="other"),
